@@ -80,7 +80,11 @@ func (e *Engine) genContractTest(con *Contract) (src string, testName string, nc
 		}
 	}
 	sb.WriteString("//IMPORTS\n\n")
-	fmt.Fprintf(&sb, "func %s(t *testing.T) {\n\tg := govcNewGen(t)\n\tfor g.Next() {\n", testName)
+	fmt.Fprintf(&sb, "func %s(t *testing.T) {\n\tg := govcNewGen(t)\n", testName)
+	if con.mode == "bounded" {
+		sb.WriteString("\tg.Bounded()\n")
+	}
+	sb.WriteString("\tfor g.Next() {\n")
 	rename := map[string]string{}
 	for i, p := range ci.params {
 		if p == "_" || p == "" {
@@ -186,7 +190,7 @@ func generable(t types.Type, depth int) bool {
 	}
 	switch u := t.Underlying().(type) {
 	case *types.Basic:
-		return u.Info()&(types.IsInteger|types.IsBoolean|types.IsString) != 0
+		return u.Info()&(types.IsInteger|types.IsBoolean|types.IsString|types.IsFloat) != 0
 	case *types.Slice:
 		return generable(u.Elem(), depth+1)
 	case *types.Array:
